@@ -78,6 +78,9 @@ Definition qr (a b c : K) : list K :=
     [kdiv N d' (kmul N two a); kdiv N (kmul N two c) d']
   else [].
 
+(** the last day whose start an int64 number of seconds can hold: MaxInt64 / SecondsInDay *)
+Definition max_day : Z := 9223372036854775807 / 86400.
+
 Definition bf_predict (b : bestfit) (balance : K) (start : Z) : option Z :=
   if kltb N (bf_c b) (k0 N) then None else
   let fs := kofZ N start in
@@ -92,7 +95,9 @@ Definition bf_predict (b : bestfit) (balance : K) (start : Z) : option Z :=
                      | _ => kadd N fs (kdiv N balance (last_y (bf_sm b)))
                      end
                 else choice in
-  if keqb N choice (kmaxfloat N) then None else Some (kceilZ N choice).
+  (* with the repair: no valid prediction unless the estimate is a representable day (this also
+     excludes MaxFloat64, infinities and NaN - a zero last share makes the estimate infinite) *)
+  if kltb N choice (kofZ N max_day) then Some (kceilZ N choice) else None.
 
 Definition bf_backfilled (b : bestfit) (start end_ : Z) : option K :=
   if kltb N (bf_c b) (k0 N) then None else
